@@ -1,6 +1,7 @@
 """C33 DER controller set-points stay within the declared capability — E1 over a P/Q/V grid x area x q-model x saturation."""
 import copy
 import math
+import os
 
 import numpy as np
 import pandas as pd
@@ -11,7 +12,7 @@ PROPERTY = "C33"
 LEVEL = "exploration"
 TOL = 1e-9
 META = {
-    "text": "For every capability area class of PQVAreas.py (STATCOM, polygon, VDE 4105/4110/4120/4130 variants, stand-alone PQ and QV parts, 27 objects incl. none) x every q-model class (10 incl. none) x saturate_sn_mva in {NaN, 0.8 sn, sn} x q_prio x damping in {1, 2}, real DERControllers are stepped on sgens covering sn in {1,2} x 7 active powers (incl. the 0.05 / 0.2 p.u. break points) x 7 start reactive powers x 7 voltages (incl. the exact 96/110 and 127/110 p.u. break points; thorough: 17), as multi-element controllers (quick) and one controller per element (thorough), and through run_control on a 2-bus net (thorough). After every control_step: sqrt(p^2+q^2) <= saturate_sn_mva when saturation is active; when only an area applies, q/sn lies in the documented q range of that area at (p/sn, vm), recomputed independently (own polygon slicing / piecewise-linear limits, no shapely, no q_flexibility call).",
+    "text": "For every capability area class of PQVAreas.py (STATCOM, polygon, VDE 4105/4110/4120/4130 variants, stand-alone PQ and QV parts; 26 area objects incl. none) x every q-model class (10 incl. none) x saturate_sn_mva in {NaN, 0.8 sn, sn} x q_prio x damping in {1, 2}, real DERControllers are stepped on sgens covering sn in {1,2} x 7 active powers (incl. the 0.05 / 0.2 p.u. break points) x 7 start reactive powers x 7 voltages (incl. the exact 96/110 and 127/110 p.u. break points; thorough: 17), as multi-element controllers (quick; damped runs and QModelCosphiSn on a stated sub-grid) and one controller per element (thorough), and through run_control on a 2-bus net (thorough). After every control_step: sqrt(p^2+q^2) <= saturate_sn_mva when saturation is active; when only an area applies, q/sn lies in the documented q range of that area at (p/sn, vm), recomputed independently (own polygon slicing / piecewise-linear limits, no shapely, no q_flexibility call).",
     "note": "Continuous domain: decided on the stated finite P/Q/V grids only. Narrow seam: res_bus.vm_pu is written directly and is_converged/control_step are called in the order run_control uses; the thorough tier also goes through runpp(run_control=True). With damping > 1 and a start outside the capability only the converged state is judged (a damped step is a convex combination of an outside and an inside point), with the controller's own convergence tolerance. Points where the documented area is empty (p or vm outside the polygon, PQ and QV parts disjoint) and steps that raise (documented merge-overlap ValueError, shapely NotImplementedError at p = 0.05 of PQArea4110, scalar q of QModelCosphiSn) are counted, not judged. Area classes whose constructor raises (PQVArea4130V2: AttributeError) are counted. The reference shapes are transcribed from the vertex lists quoted in the class definitions.",
     "technique": "bounded exhaustive input enumeration (full product of finite grids) on the real controller with an independently recomputed capability-area reference",
     "design_ref": "DESIGN.md §3 E1, §4 C33",
@@ -34,29 +35,35 @@ def gen_cases(tier):
         for qm in kd.qmodel_keys():
             for sat, qprio in _sat_prio():
                 for damp in (1, 2):
-                    cases.append({"mode": "vector", "area": area, "qm": qm, "sat": sat, "q_prio": qprio, "damp": damp, "rmo": True})
+                    c = {"mode": "vector", "area": area, "qm": qm, "sat": sat, "q_prio": qprio, "damp": damp, "rmo": True}
+                    if tier == "quick" and (damp == 2 or qm.startswith("cosphi_sn")):
+                        c["short_grid"] = True
+                    cases.append(c)
     # merge-overlap handling switched off (documented alternative: mean of the two bounds)
     for area in [a for a in kd.area_keys() if a.startswith("pqv")]:
         for sat, qprio in (("nan", True), (1.0, True)):
             cases.append({"mode": "vector", "area": area, "qm": "none", "sat": sat, "q_prio": qprio, "damp": 1, "rmo": False})
     if tier == "thorough":
         for area in kd.area_keys():
-            for qm in kd.qmodel_keys():
+            for qm in ("none", "const_q_-1.0", "cosphi_p_0.9", "cosphi_sn_0.2", "cosphi_p_curve", "qv_curve"):
                 for sat, qprio in _sat_prio():
                     cases.append({"mode": "single", "area": area, "qm": qm, "sat": sat, "q_prio": qprio, "damp": 1, "rmo": True})
         for area in [a for a in kd.area_keys() if a.startswith("pqv") or a in ("none", "statcom")]:
-            for qm in kd.qmodel_keys():
-                for sat, qprio in _sat_prio():
+            for qm in ("none", "const_q_-1.0", "cosphi_p_0.9", "qv_curve", "cosphi_v_curve"):
+                for sat, qprio in (("nan", True), (0.8, True), (0.8, False)):
                     for damp in (1, 2):
                         cases.append({"mode": "run_control", "area": area, "qm": qm, "sat": sat, "q_prio": qprio, "damp": damp, "rmo": True})
     return cases
 
 
 def _elements(case, tier_vms):
-    """(sn, p_pu, q_pu, vm index) grid of a case"""
+    """(sn, p_pu, q_pu, vm index) grid of a case.  Full grid for damping 1; the damped runs (about 17 steps each) and the
+    q-model whose scalar q makes nearly every step raise use a stated sub-grid in the quick tier."""
     qs = kd.Q_PU if case["qm"] == "none" else kd.Q_PU_SHORT
-    sns = kd.SN if case["damp"] == 1 else kd.SN[:1]
-    return [(sn, p, q, iv) for iv in range(len(tier_vms)) for sn in sns for p in kd.P_PU for q in qs]
+    sns, ps, ivs = kd.SN, kd.P_PU, list(range(len(tier_vms)))
+    if case.get("short_grid"):
+        sns, ps, ivs = kd.SN[:1], [0.03, 0.2, 1.0], [0, 1, 3, 4, 6]
+    return [(sn, p, q, iv) for iv in ivs for sn in sns for p in ps for q in qs]
 
 
 # ----------------------------------------------------------------------------------------------
@@ -79,7 +86,7 @@ def _sat_value(case, sn):
     return float("nan") if case["sat"] == "nan" else case["sat"] * sn
 
 
-def _judge(case, elems, idxs, net, vms, when, tol_extra, cnt, vs, done):
+def _judge(case, elems, idxs, net, vms, when, damped_conv, cnt, vs, done):
     """the two clauses of the statement on the current net.sgen rows idxs"""
     area = case["area"]
     n = 0
@@ -95,9 +102,12 @@ def _judge(case, elems, idxs, net, vms, when, tol_extra, cnt, vs, done):
                                          tokens=_tokens(case) + ["nonfinite"], klass=area + "/" + case["qm"]))
             continue
         sat = _sat_value(case, sn)
+        # a damped controller stops when np.allclose(target, value, atol=max_error) (default rtol 1e-5) holds for the HALF step
+        tq = case["damp"] * (MAX_ERR + 1e-5 * abs(q)) * 1.05 if damped_conv else 0.0
+        tp = case["damp"] * (MAX_ERR + 1e-5 * abs(p)) * 1.05 if damped_conv else 0.0
         if not math.isnan(sat):
             s = math.hypot(p, q)
-            if s > sat * (1 + TOL) + tol_extra and "s" not in done:
+            if s > sat * (1 + TOL) + tp + tq and "s" not in done:
                 done.add("s")
                 vs.append(core.violation("apparent_power_within_saturation",
                                          {"element": {"sn_mva": sn, "p_start_pu": p0, "q_start_pu": q0, "vm_pu": vms[iv]}, "p_mw": p, "q_mvar": q, "s_mva": s,
@@ -108,7 +118,7 @@ def _judge(case, elems, idxs, net, vms, when, tol_extra, cnt, vs, done):
                 cnt["not_judged_documented_area_empty"] = cnt.get("not_judged_documented_area_empty", 0) + 1
                 continue
             qpu = q / sn
-            t = TOL + tol_extra / sn
+            t = TOL + tq / sn
             if not (ref[0] - t <= qpu <= ref[1] + t) and "q" not in done:
                 done.add("q")
                 toks = _tokens(case)
@@ -137,19 +147,31 @@ def _start_inside(case, el, vms):
     return ref is not None and ref[0] <= q <= ref[1]
 
 
-def _run_group(case, elems, vms, out, depth=0):
-    """one multi-element controller on `elems`; on an exception the group is split until single elements remain"""
-    from pandapower.create import create_sgens
+def _reset(net, elems, idxs):
+    net.sgen.loc[idxs, "p_mw"] = [e[1] * e[0] for e in elems]
+    net.sgen.loc[idxs, "q_mvar"] = [e[2] * e[0] for e in elems]
+
+
+def _split(elems, idxs, level):
+    """level 0: by voltage, level 1: by active power, level 2: single elements"""
+    parts = {}
+    for e, i in zip(elems, idxs):
+        k = e[3] if level == 0 else (e[1] if level == 1 else i)
+        parts.setdefault(k, ([], []))
+        parts[k][0].append(e)
+        parts[k][1].append(i)
+    return [parts[k] for k in sorted(parts)]
+
+
+def _run_group(case, net, elems, idxs, vms, out, level=0, expect_refusal=False):
+    """one multi-element controller on `elems` (rows idxs of net.sgen); when a step raises the group is split by voltage, then by
+    active power, then into single elements, each retried from its start values"""
     from pandapower.control.controller.DERController import DERController
     cnt, vs = out["counts"], out["violations"]
-    net = _net_for(vms)
-    idxs = create_sgens(net, [1 + e[3] for e in elems], p_mw=[e[1] * e[0] for e in elems], q_mvar=[e[2] * e[0] for e in elems],
-                        sn_mva=[e[0] for e in elems])
-    idxs = list(idxs)
     sat = np.array([_sat_value(case, e[0]) for e in elems])
     try:
         area = kd.make_area(case["area"], raise_merge_overlap=case["rmo"])
-        ctrl = DERController(net, idxs, q_model=kd.make_qmodel(case["qm"]), pqv_area=area,
+        ctrl = DERController(net, list(idxs), q_model=kd.make_qmodel(case["qm"]), pqv_area=area,
                              saturate_sn_mva=sat if len(elems) > 1 else float(sat[0]), q_prio=case["q_prio"], damping_coef=case["damp"],
                              max_p_error=MAX_ERR, max_q_error=MAX_ERR)
     except Exception as e:
@@ -167,46 +189,68 @@ def _run_group(case, elems, vms, out, depth=0):
             ctrl.control_step(net)
             steps += 1
             if judge_each:
-                out["n"] += _judge(case, elems, idxs, net, vms, "after step %d" % steps, 0.0, cnt, vs, done)
+                out["n"] += _judge(case, elems, idxs, net, vms, "after step %d" % steps, False, cnt, vs, done)
     except Exception as e:
-        if len(elems) == 1:
+        if len(elems) == 1 or (expect_refusal and isinstance(e, ValueError) and "max_q > min_q" in str(e)):
             k = "step_raises_%s" % type(e).__name__
-            cnt[k] = cnt.get(k, 0) + 1
+            cnt[k] = cnt.get(k, 0) + len(elems)
             out["raise_kinds"].add("%s|%s|%s: %s" % (case["area"], case["qm"], type(e).__name__, str(e)[:60]))
             return
-        h = len(elems) // 2
-        _run_group(case, elems[:h], vms, out, depth + 1)
-        _run_group(case, elems[h:], vms, out, depth + 1)
+        _reset(net, elems, idxs)
+        parts = _split(elems, idxs, level)
+        while len(parts) == 1 and level < 2:
+            level += 1
+            parts = _split(elems, idxs, level)
+        for pe, pi in parts:
+            _run_group(case, net, pe, pi, vms, out, level + 1)
         return
     if not conv:
         cnt["not_converged_in_%d_iterations" % MAX_ITER] = cnt.get("not_converged_in_%d_iterations" % MAX_ITER, 0) + len(elems)
     elif not judge_each:
-        out["n"] += _judge(case, elems, idxs, net, vms, "at convergence (damped, %d steps)" % steps, case["damp"] * MAX_ERR * 1.01, cnt, vs, done)
+        out["n"] += _judge(case, elems, idxs, net, vms, "at convergence (damped, %d steps)" % steps, True, cnt, vs, done)
     cnt["control_steps"] = cnt.get("control_steps", 0) + steps * len(elems)
     for e, i in zip(elems, idxs):
         moved = abs(net.sgen.q_mvar.at[i] - e[2] * e[0]) > 1e-12 or abs(net.sgen.p_mw.at[i] - e[1] * e[0]) > 1e-12
         out["sig"].append("%s|%s|%s|%s|%s|%s|%s|moved=%d" % (case["area"], case["qm"], case["sat"], case["q_prio"], case["damp"], case["mode"], e, moved))
 
 
+def _case_net(case, vms):
+    from pandapower.create import create_sgens
+    elems = _elements(case, vms)
+    net = _net_for(vms)
+    idxs = list(create_sgens(net, [1 + e[3] for e in elems], p_mw=[e[1] * e[0] for e in elems], q_mvar=[e[2] * e[0] for e in elems],
+                             sn_mva=[e[0] for e in elems]))
+    return net, elems, idxs
+
+
 def run_vector(case, vms):
     out = {"violations": [], "n": 0, "counts": {}, "sig": [], "raise_kinds": set(), "outcome": "ok"}
-    elems = _elements(case, vms)
-    # one controller per voltage value and per "documented area empty or not" (an empty merged area is a documented refusal that
-    # would take the whole vector down)
-    groups = {}
-    for e in elems:
+    net, elems, idxs = _case_net(case, vms)
+    # elements whose documented area is empty (PQ and QV part disjoint, p / vm outside the polygon) get their own controller: with
+    # raise_merge_overlap=True the documented answer is a ValueError for all of them, which would take the whole vector down
+    a = ([], [])
+    b = ([], [])
+    for e, i in zip(elems, idxs):
         ref = kd.ref_range(case["area"], e[1], vms[e[3]]) if case["area"] != "none" else (0, 0)
-        groups.setdefault((e[3], ref is None), []).append(e)
-    for key in sorted(groups):
-        _run_group(case, groups[key], vms, out)
+        g = b if ref is None else a
+        g[0].append(e)
+        g[1].append(i)
+    if a[0]:
+        _run_group(case, net, a[0], a[1], vms, out)
+    if b[0]:
+        _run_group(case, net, b[0], b[1], vms, out, expect_refusal=case["rmo"] and case["area"].startswith("pqv4"))
     return out
 
 
 def run_single(case, vms):
     out = {"violations": [], "n": 0, "counts": {}, "sig": [], "raise_kinds": set(), "outcome": "ok"}
-    for e in _elements(case, vms):
-        _run_group(case, [e], vms, out)
+    net, elems, idxs = _case_net(case, vms)
+    for e, i in zip(elems, idxs):
+        _run_group(case, net, [e], [i], vms, out, level=3)
     return out
+
+
+_RC_BASE = None
 
 
 def run_rc(case):
@@ -215,14 +259,18 @@ def run_rc(case):
     from pandapower.control.controller.DERController import DERController
     out = {"violations": [], "n": 0, "counts": {}, "sig": [], "raise_kinds": set(), "outcome": "ok"}
     cnt = out["counts"]
+    global _RC_BASE
+    if _RC_BASE is None:
+        _RC_BASE = pp.create_empty_network()
+        pp.create_buses(_RC_BASE, 2, 20.)
+        pp.create_ext_grid(_RC_BASE, 0, vm_pu=1.0)
+        pp.create_line_from_parameters(_RC_BASE, 0, 1, 1.0, 0.2, 0.1, 10., 1.)
     for vm_set in (0.9, 0.96, 1.0, 1.04, 1.1):
-        for sn in (1.0, 2.0):
-            for p_pu in (0.03, 0.12, 0.6, 1.0):
-                for q_pu in ((-0.45, 0.2, 1.2) if case["qm"] == "none" else (0.0,)):
-                    net = pp.create_empty_network()
-                    pp.create_buses(net, 2, 20.)
-                    pp.create_ext_grid(net, 0, vm_pu=vm_set)
-                    pp.create_line_from_parameters(net, 0, 1, 1.0, 0.2, 0.1, 10., 1.)
+        for sn in (1.0,):
+            for p_pu in (0.03, 0.12, 1.0):
+                for q_pu in ((-0.45, 1.2) if case["qm"] == "none" else (0.0,)):
+                    net = copy.deepcopy(_RC_BASE)
+                    net.ext_grid["vm_pu"] = vm_set
                     i = pp.create_sgen(net, 1, p_mw=p_pu * sn, q_mvar=q_pu * sn, sn_mva=sn)
                     try:
                         DERController(net, i, q_model=kd.make_qmodel(case["qm"]), pqv_area=kd.make_area(case["area"]),
@@ -234,7 +282,7 @@ def run_rc(case):
                         continue
                     vm = float(net.res_bus.vm_pu.at[1])
                     done = set()
-                    out["n"] += _judge(case, [(sn, p_pu, q_pu, 0)], [i], net, [vm], "after run_control", case["damp"] * MAX_ERR * 1.01, cnt, out["violations"], done)
+                    out["n"] += _judge(case, [(sn, p_pu, q_pu, 0)], [i], net, [vm], "after run_control", True, cnt, out["violations"], done)
                     out["sig"].append("rc|%s|%s|%s|%s|%s|%s|%s|%s|%s" % (case["area"], case["qm"], case["sat"], case["q_prio"], case["damp"], vm_set, sn, p_pu, q_pu))
     return out
 
@@ -259,6 +307,11 @@ def explore(tier, seed):
     core.warm(pf=(tier == "thorough"))
     import pandapower.control  # noqa: F401
     cases = gen_cases(tier)
+    stride = int(os.environ.get("VERIF_CASE_STRIDE", "1") or 1)   # screening aid for seeded-mutation runs only: every n-th case
+    if stride > 1:
+        cases = cases[::stride]
+        rep.exhaustive = False
+        rep.extra["case_stride"] = stride
     if tier == "thorough":
         for c in cases:
             if c["mode"] != "run_control":
